@@ -27,6 +27,7 @@ import (
 	"time"
 
 	egcontext "github.com/megaease/easegress/pkg/context"
+	_ "github.com/megaease/easegress/pkg/filters/mock"
 	_ "github.com/megaease/easegress/pkg/filters/proxy"
 	_ "github.com/megaease/easegress/pkg/filters/requestadaptor"
 	_ "github.com/megaease/easegress/pkg/filters/responseadaptor"
@@ -109,6 +110,9 @@ func vfxBrief(b []byte) string {
 type vfxPathCfg struct {
 	Prefix    string
 	ClientMax int64
+	// Local: the path's backend is a second pipeline that answers by itself (a Mock filter: 200,
+	// body "local") and, unlike the Proxy, never looks at the request context or the body
+	Local bool
 }
 
 type vfxPoolCfg struct {
@@ -120,9 +124,9 @@ type vfxCfg struct {
 	ServerClientMax int64
 	Paths           []vfxPathCfg
 
-	ReqAdaptor      string // "", body, compress, decompress
+	ReqAdaptor      string // "", body, compress, decompress, body+compress
 	ReqAdaptorBody  string
-	RespAdaptor     string // "", body, compress, decompress
+	RespAdaptor     string // "", body, compress, decompress, body+compress
 	RespAdaptorBody string
 
 	ProxyServerMax int64
@@ -170,7 +174,11 @@ func (c *vfxCfg) serverYAML() string {
 	}
 	b.WriteString("rules:\n- paths:\n")
 	for _, p := range c.Paths {
-		fmt.Fprintf(&b, "  - pathPrefix: %s\n    backend: pipe\n", strconv.Quote(p.Prefix))
+		backend := "pipe"
+		if p.Local {
+			backend = "local"
+		}
+		fmt.Fprintf(&b, "  - pathPrefix: %s\n    backend: %s\n", strconv.Quote(p.Prefix), backend)
 		if p.ClientMax != 0 {
 			fmt.Fprintf(&b, "    clientMaxBodySize: %d\n", p.ClientMax)
 		}
@@ -194,6 +202,8 @@ func (c *vfxCfg) pipelineYAML(backendHostPort string) string {
 			b.WriteString("  compress: gzip\n")
 		case "decompress":
 			b.WriteString("  decompress: gzip\n")
+		case "body+compress":
+			fmt.Fprintf(&b, "  body: %s\n  compress: gzip\n", strconv.Quote(c.ReqAdaptorBody))
 		}
 	}
 	b.WriteString("- name: proxy\n  kind: Proxy\n")
@@ -243,6 +253,8 @@ func (c *vfxCfg) pipelineYAML(backendHostPort string) string {
 			b.WriteString("  compress: gzip\n")
 		case "decompress":
 			b.WriteString("  decompress: gzip\n")
+		case "body+compress":
+			fmt.Fprintf(&b, "  body: %s\n  compress: gzip\n", strconv.Quote(c.RespAdaptorBody))
 		}
 	}
 	return b.String()
@@ -290,8 +302,9 @@ func (s *vfxSeen) String() string {
 }
 
 type vfxMapper struct {
-	mu sync.Mutex
-	h  egcontext.Handler
+	mu    sync.Mutex
+	h     egcontext.Handler
+	local egcontext.Handler
 }
 
 func (m *vfxMapper) GetHandler(name string) (egcontext.Handler, bool) {
@@ -300,8 +313,13 @@ func (m *vfxMapper) GetHandler(name string) (egcontext.Handler, bool) {
 	if name == "pipe" && m.h != nil {
 		return m.h, true
 	}
+	if name == "local" && m.local != nil {
+		return m.local, true
+	}
 	return nil, false
 }
+
+const vfxLocalPipelineYAML = "name: local\nkind: Pipeline\nfilters:\n- name: mock\n  kind: Mock\n  rules:\n  - match:\n      pathPrefix: /\n    code: 200\n    body: local\n"
 
 // vfxHub: the two listeners of a test process. They are opened once and shared by all cases (a
 // listener pair per case exhausts the ephemeral ports of a busy machine); a case installs its own
@@ -446,8 +464,9 @@ type vfxRig struct {
 
 	backendHost string // what the pipeline was told (127.0.0.1:port or localhost:port)
 
-	pipe *pipeline.Pipeline
-	mux  *mux
+	pipe  *pipeline.Pipeline
+	local *pipeline.Pipeline // backend of the paths marked Local (nil when there is none)
+	mux   *mux
 
 	mu         sync.Mutex
 	script     *vfxScript
@@ -615,6 +634,9 @@ func vfxNewRig(cfg *vfxCfg) (rig *vfxRig, err error) {
 		if err != nil && r.pipe != nil {
 			r.pipe.Close()
 		}
+		if err != nil && r.local != nil {
+			r.local.Close()
+		}
 	}()
 
 	r.pipeYAML = cfg.pipelineYAML(r.backendHost)
@@ -631,6 +653,17 @@ func vfxNewRig(cfg *vfxCfg) (rig *vfxRig, err error) {
 		return nil, fmt.Errorf("server spec: %v", err)
 	}
 	mapper := &vfxMapper{h: r.pipe}
+	for _, p := range cfg.Paths {
+		if p.Local && r.local == nil {
+			lspec, err := supervisor.NewSpec(vfxLocalPipelineYAML)
+			if err != nil {
+				return nil, fmt.Errorf("local pipeline spec: %v", err)
+			}
+			r.local = &pipeline.Pipeline{}
+			r.local.Init(lspec, nil)
+			mapper.local = r.local
+		}
+	}
 	r.mapper = mapper
 	r.mux = newMux(httpstat.New(), httpstat.NewTopN(10), mapper)
 	r.mux.reload(sspec, mapper)
@@ -702,6 +735,9 @@ func (r *vfxRig) Close() {
 		h.dropConn()
 	}
 	r.pipe.Close()
+	if r.local != nil {
+		r.local.Close()
+	}
 	// the Proxy's transport is gone with the pipeline: let the backend close its idle connections
 	// (server side closes first, so no ephemeral port lingers in TIME_WAIT on the client side)
 	h.backend.CloseClientConnections()
@@ -798,9 +834,13 @@ type vfxRequest struct {
 	Host     string
 	Headers  [][2]string // everything except Host and the framing header
 	Body     []byte      // bytes on the wire (already encoded when labelled)
-	Framing  string      // "none" | "cl" | "chunked" | "lying"
+	Framing  string      // "none" | "cl" | "chunked" | "lying" | "chunked-cut"
 	Chunks   []int       // chunk sizes for chunked (last one takes the remainder)
 	LieExtra int
+	// "chunked-cut": the body bytes are sent in chunks, then the client half-closes without the
+	// terminating zero-length chunk; with CutTornChunk the last chunk announces LieExtra more bytes
+	// than are sent (torn inside a chunk)
+	CutTornChunk bool
 }
 
 func (q *vfxRequest) wire() []byte {
@@ -816,9 +856,10 @@ func (q *vfxRequest) wire() []byte {
 	case "lying":
 		fmt.Fprintf(&b, "Content-Length: %d\r\n\r\n", len(q.Body)+q.LieExtra)
 		b.Write(q.Body)
-	case "chunked":
+	case "chunked", "chunked-cut":
 		b.WriteString("Transfer-Encoding: chunked\r\n\r\n")
 		rest := q.Body
+		cut := q.Framing == "chunked-cut"
 		for _, n := range q.Chunks {
 			if n <= 0 || len(rest) == 0 {
 				continue
@@ -831,12 +872,23 @@ func (q *vfxRequest) wire() []byte {
 			b.WriteString("\r\n")
 			rest = rest[n:]
 		}
+		if cut && q.CutTornChunk {
+			extra := q.LieExtra
+			if extra <= 0 {
+				extra = 1
+			}
+			fmt.Fprintf(&b, "%X\r\n", len(rest)+extra)
+			b.Write(rest)
+			break
+		}
 		if len(rest) > 0 {
 			fmt.Fprintf(&b, "%X\r\n", len(rest))
 			b.Write(rest)
 			b.WriteString("\r\n")
 		}
-		b.WriteString("0\r\n\r\n")
+		if !cut {
+			b.WriteString("0\r\n\r\n")
+		}
 	default:
 		b.WriteString("\r\n")
 	}
@@ -844,7 +896,7 @@ func (q *vfxRequest) wire() []byte {
 }
 
 func (q *vfxRequest) String() string {
-	return fmt.Sprintf("%s %s host=%q hdr=%q framing=%s chunks=%v lie=+%d body=%s", q.Method, q.Target, q.Host, q.Headers, q.Framing, q.Chunks, q.LieExtra, vfxBrief(q.Body))
+	return fmt.Sprintf("%s %s host=%q hdr=%q framing=%s chunks=%v lie=+%d torn-chunk=%v body=%s", q.Method, q.Target, q.Host, q.Headers, q.Framing, q.Chunks, q.LieExtra, q.CutTornChunk, vfxBrief(q.Body))
 }
 
 // vfxResponse is a parsed response plus the verdict of the framing validator.
@@ -1172,7 +1224,7 @@ func (r *vfxRig) do1(q *vfxRequest, mayRetry bool) (*vfxResponse, error) {
 	go func() {
 		defer wg.Done()
 		_, werr = conn.c.Write(wire)
-		if q.Framing == "lying" && werr == nil {
+		if (q.Framing == "lying" || q.Framing == "chunked-cut") && werr == nil {
 			if tc, ok := conn.c.(*net.TCPConn); ok {
 				werr = tc.CloseWrite()
 			}
@@ -1194,7 +1246,7 @@ func (r *vfxRig) do1(q *vfxRequest, mayRetry bool) (*vfxResponse, error) {
 		r.dropConn()
 		return r.do1(q, false)
 	}
-	reusable := werr == nil && resp.FramingErr == "" && !resp.Closed && q.Framing != "lying" &&
+	reusable := werr == nil && resp.FramingErr == "" && !resp.Closed && q.Framing != "lying" && q.Framing != "chunked-cut" &&
 		resp.Proto == "HTTP/1.1" && !vfxHasToken(resp.Get("Connection"), "close")
 	for _, kv := range q.Headers {
 		if strings.EqualFold(kv[0], "Connection") && vfxHasToken([]string{kv[1]}, "close") {
